@@ -280,3 +280,116 @@ def srec_record(line):
     if (count + sum(body) + ck) & 0xff != 0xff:
         return "cksum", None
     return "ok", {"type": t, "count": count, "address": int.from_bytes(body[:ab], "big"), "data": body[ab:].hex(), "cksum": ck}
+
+
+def oracle_layouts():
+    """(name, offset, size) tables of the ELF structures computed with `struct.calcsize` from the
+    format strings the reader above uses (standard sizes, no implicit padding)."""
+    def lay(fields, base=0):
+        out, off = [], base
+        for n, t in fields:
+            sz = struct.calcsize("<" + t)
+            out.append([n, off, sz])
+            off += sz
+        return out
+    A = {False: "I", True: "Q"}
+    L = {"IDENT": lay([("ELFMAG0", "B"), ("ELFMAG", "3s"), ("EI_CLASS", "B"), ("EI_DATA", "B"), ("EI_VERSION", "B"),
+                       ("EI_OSABI", "B"), ("EI_ABIVERSION", "B"), ("unused", "7s")])}
+    for x64 in (False, True):
+        k = "64" if x64 else "32"
+        a = A[x64]
+        L["Ehdr" + k] = lay(EH64 if x64 else EH32, 16)
+        L["Phdr" + k] = lay([(n, "I" if n in ("p_type", "p_flags") else a) for n in (PH64 if x64 else PH32)])
+        L["Shdr" + k] = lay([(n, "I" if n in ("sh_name", "sh_type", "sh_link", "sh_info") else a) for n in SH])
+        if x64:
+            L["Sym64"] = lay([("st_name", "I"), ("st_info", "B"), ("st_other", "B"), ("st_shndx", "H"), ("st_value", "Q"), ("st_size", "Q")])
+        else:
+            L["Sym32"] = lay([("st_name", "I"), ("st_value", "I"), ("st_size", "I"), ("st_info", "B"), ("st_other", "B"), ("st_shndx", "H")])
+        L["Rel" + k] = lay([("r_offset", a), ("r_info", a)])
+        L["Rela" + k] = lay([("r_offset", a), ("r_info", a), ("r_addend", a)])
+        L["Dyn" + k] = lay([("d_tag", a), ("d_un", a)])
+    return L
+
+
+# ---------------------------------------------------------------------------------------
+# PE / Mach-O headers by the book
+# ---------------------------------------------------------------------------------------
+
+NT_F = ["Signature", "Machine", "NumberOfSections", "TimeDateStamp", "PointerToSymbolTable", "NumberOfSymbols",
+        "SizeOfOptionalHeader", "Characteristics"]
+OPT32 = ["Magic", "MajorLinkerVersion", "MinorLinkerVersion", "SizeOfCode", "SizeOfInitializedData", "SizeOfUninitializedData",
+         "AddressOfEntryPoint", "BaseOfCode", "BaseOfData", "ImageBase", "SectionAlignment", "FileAlignment",
+         "MajorOperatingSystemVersion", "MinorOperatingSystemVersion", "MajorImageVersion", "MinorImageVersion",
+         "MajorSubsystemVersion", "MinorSubsystemVersion", "Win32VersionValue", "SizeOfImage", "SizeOfHeaders", "CheckSum",
+         "Subsystem", "DllCharacteristics", "SizeOfStackReserve", "SizeOfStackCommit", "SizeOfHeapReserve", "SizeOfHeapCommit",
+         "LoaderFlags", "NumberOfRvaAndSizes"]
+OPT64 = [n for n in OPT32 if n != "BaseOfData"]
+SEC_F = ["Name", "VirtualSize", "RVA", "SizeOfRawData", "PointerToRawData", "PointerToRelocations", "PointerToLineNumbers",
+         "NumberOfRelocations", "NumberOfLineNumbers", "Characteristics"]
+
+
+def read_pe(data):
+    if data[:2] != b"MZ" or len(data) < 64:
+        raise OracleError("MZ")
+    lfanew = unpack_at("<I", data, 60)[0]
+    nt = dict(zip(NT_F, unpack_at("<IHHIIIHH", data, lfanew)))
+    if nt["Signature"] != 0x4550:
+        raise OracleError("PE signature")
+    o = lfanew + 24
+    magic = unpack_at("<H", data, o)[0]
+    if magic == 0x20b:
+        opt = dict(zip(OPT64, unpack_at("<HBBIIIIIQIIHHHHHHIIIIHHQQQQII", data, o)))
+        dd = o + 112
+    else:
+        opt = dict(zip(OPT32, unpack_at("<HBBIIIIIIIIIHHHHHHIIIIHHIIIIII", data, o)))
+        dd = o + 96
+    dirs = [list(unpack_at("<II", data, dd + 8 * i)) for i in range(min(opt["NumberOfRvaAndSizes"], 16))]
+    so = o + nt["SizeOfOptionalHeader"]
+    secs = []
+    for i in range(nt["NumberOfSections"]):
+        v = unpack_at("<8sIIIIIIHHI", data, so + 40 * i)
+        d = dict(zip(SEC_F, v))
+        d["Name"] = d["Name"].hex()
+        secs.append(d)
+    return {"e_lfanew": lfanew, "NT": nt, "Opt": opt, "dirs": dirs, "sections": secs,
+            "entry": opt["AddressOfEntryPoint"] + opt["ImageBase"]}
+
+
+def read_macho(data):
+    magic = unpack_at("<I", data, 0)[0]
+    if magic == 0xFEEDFACF:
+        names = ["magic", "cputype", "cpusubtype", "filetype", "ncmds", "sizeofcmds", "flags", "reserved"]
+        hdr = dict(zip(names, unpack_at("<IIIIIIII", data, 0)))
+        off = 32
+    elif magic == 0xFEEDFACE:
+        names = ["magic", "cputype", "cpusubtype", "filetype", "ncmds", "sizeofcmds", "flags"]
+        hdr = dict(zip(names, unpack_at("<IiiIIII", data, 0)))
+        off = 28
+    else:
+        raise OracleError("magic")
+    cmds = []
+    end = off + hdr["sizeofcmds"]
+    while off < end:
+        cmd, size = unpack_at("<II", data, off)
+        c = {"cmd": cmd, "cmdsize": size}
+        if cmd in (0x1, 0x19):
+            q = cmd == 0x19
+            v = unpack_at("<16sQQQQiiII" if q else "<16sIIIIiiII", data, off + 8)
+            c.update(dict(zip(["segname", "vmaddr", "vmsize", "fileoffset", "filesize", "maxprot", "initprot", "nsects", "flags"], v)))
+            c["segname"] = c["segname"].hex()
+            so = off + 8 + (64 if q else 48)
+            secs = []
+            for k in range(c["nsects"]):
+                if q:
+                    w = unpack_at("<16s16sQQII", data, so)
+                    so += 80
+                else:
+                    w = unpack_at("<16s16sIIII", data, so)
+                    so += 68
+                secs.append({"sectname": w[0].hex(), "segname": w[1].hex(), "addr": w[2], "size_": w[3], "offset": w[4], "align": w[5]})
+            c["sections"] = secs
+        if size < 8:
+            raise OracleError("cmdsize")
+        cmds.append(c)
+        off += size
+    return {"header": hdr, "cmds": cmds}
